@@ -1,4 +1,5 @@
 import RxProofs.Lemmas.WinGrp
+import RxProofs.Lemmas.WinGrpRelease
 /-!
 # C19 — grouping routes each element to exactly one live group; partition
 
@@ -197,12 +198,13 @@ theorem groups_end_with_source (cfg : Cfg α κ β) (hrefl : ∀ k, cfg.keyEq k 
       (s.outStopped = false → ∃ pre post, s'.out = pre ++ Eff.outer no :: post ∧ ∀ e ∈ post, Eff.isUnsub e = true) := by
   intro s s' nb no hs
   have hi := inv_reach hrefl (cfg := cfg) (β := β) evs
-  have hcommon : s' = closeSrc (outerTerm (termAll { s with srcStopped := true } nb) no) := by
+  have hcommon : ∃ d f, s' = closeSrc (outerTerm (termAll { s with srcStopped := true, srcDone := d, failed := f } nb) no) := by
     cases n with
     | next v => cases hn
-    | error e => simp [s', step, hs, errorAll, nb, no]
-    | completed => simp [s', step, hs, nb, no]
-  obtain ⟨ht, hout⟩ := term_common cfg s hi nb no
+    | error e => exact ⟨true, true, by simp [s', step, hs, errorAll, nb, no]⟩
+    | completed => exact ⟨true, s.failed, by simp [s', step, hs, nb, no]⟩
+  obtain ⟨d, f, hcommon⟩ := hcommon
+  obtain ⟨ht, hout⟩ := term_common cfg s hi nb no d f
   rw [← hcommon] at ht hout
   refine ⟨?_, ?_, hout⟩
   · intro j r hr
@@ -373,6 +375,66 @@ theorem sync_duration_drops_element :
 /-- the hypotheses of `expire_never_keyerror` / `duration_expires_group` are satisfiable: a live duration -/
 example : ((run (exCfg fun _ => none) init [.src (.next 1)]).groups.map fun r => decide (r.dur = .live)) = [true] := by decide
 
+/-! ### when the source subscription is closed; subscribers that outlive the outer subscription -/
+
+/-- **source_released_iff** (state form, every event list).  The source subscription is closed exactly when the source's
+terminal reached the operator, or an operator failure (error-all: raising mapper, failing duration, source error)
+happened, or the outer subscriber is stopped (terminated, or its subscription disposed) and no group subscriber holds a
+reference of the RefCountDisposable (each group subscription made through the GroupedObservable holds one; a subscriber
+whose group terminated or who unsubscribed has given it back; after disposal the getter hands out an empty Disposable). -/
+theorem source_released_iff (cfg : Cfg α κ β) (hrefl : ∀ k, cfg.keyEq k k = true) (evs : List (Ev α)) :
+    let s := run cfg (init : St κ β) evs
+    s.srcOpen = false ↔
+      (s.srcDone = true ∨ s.failed = true ∨ (s.outStopped = true ∧ ∀ r ∈ s.groups, r.holdsRef = false)) :=
+  WinGrp.source_released_iff cfg hrefl evs
+
+/-- **source_kept_while_holder** ("not earlier"): while the source has not terminated, no failure happened and some group
+subscriber still holds its reference, the source stays subscribed — also after the outer subscription was disposed. -/
+theorem source_kept_while_holder (cfg : Cfg α κ β) (hrefl : ∀ k, cfg.keyEq k k = true) (evs : List (Ev α)) (r : Grp κ β) :
+    let s := run cfg (init : St κ β) evs
+    s.srcDone = false → s.failed = false → r ∈ s.groups → r.holdsRef = true → s.srcOpen = true :=
+  WinGrp.source_kept_while_holder cfg hrefl evs r
+
+/-- **source_released_with_last_holder** ("not later"): whatever event leaves the outer subscriber stopped and no group
+subscriber holding a reference (the last holder's group terminates, the last holder unsubscribes, or the outer dispose
+itself when there is no holder), the source and every duration subscription are closed in the resulting state. -/
+theorem source_released_with_last_holder (cfg : Cfg α κ β) (hrefl : ∀ k, cfg.keyEq k k = true) (evs : List (Ev α)) (e : Ev α) :
+    let s' := step cfg (run cfg (init : St κ β) evs) e
+    s'.outStopped = true → (∀ r ∈ s'.groups, r.holdsRef = false) → Released s' :=
+  WinGrp.source_released_with_last_holder cfg hrefl evs e
+
+/-- **live_subscriber_keeps_receiving.**  On every run `pre ++ [disposeOuter] ++ post`: the outer subscriber stays stopped,
+and a group subscriber still attached to its group while the source is subscribed (i) receives every further element
+whose key equals the group's key (mapped; appended to its record and to the writer log = arrival order) and stays
+attached, (ii) receives the source's terminal as its last notification, after which the source subscription is closed. -/
+theorem live_subscriber_keeps_receiving (cfg : Cfg α κ β) (hrefl : ∀ k, cfg.keyEq k k = true)
+    (hsymm : ∀ a b, cfg.keyEq a b = true → cfg.keyEq b a = true)
+    (htrans : ∀ a b c, cfg.keyEq a b = true → cfg.keyEq b c = true → cfg.keyEq a c = true)
+    (pre post : List (Ev α)) (g : Nat) (r : Grp κ β) :
+    let s := run cfg (init : St κ β) (pre ++ .disposeOuter :: post)
+    s.groups[g]? = some r → r.sub = .active → s.srcStopped = false →
+      s.outStopped = true ∧ s.primary = true ∧
+      (∀ (x : α) (k : κ) (v : β), cfg.keyMapper x = .ok k → cfg.elemMapper x = .ok v → cfg.keyEq r.key k = true →
+        ∃ r', (step cfg s (.src (.next x))).groups[g]? = some r' ∧ r'.seen = r.seen ++ [.next v] ∧
+          r'.wlog = r.wlog ++ [.next v] ∧ r'.sub = .active ∧ r'.stopped = false) ∧
+      (∀ n : Notif α, n.isTerminal = true →
+        ∃ r', (step cfg s (.src n)).groups[g]? = some r' ∧
+          r'.seen = r.seen ++ [match n with | .error e => .error e | _ => .completed] ∧ r'.sub = .ended ∧
+          (step cfg s (.src n)).srcOpen = false) :=
+  WinGrp.live_subscriber_keeps_receiving cfg hrefl hsymm htrans pre post g r
+
+/-- non-vacuity (the demo shape: elements, outer disposed "@250" with the group of key 1 subscribed, more elements, source
+terminal "@300"): after the dispose the source is still subscribed and the subscriber keeps receiving; the terminal ends
+it and closes the source; with no subscriber the dispose closes the source at once -/
+example : (let s := run (exCfg fun _ => none) init [.src (.next 1), .src (.next 3), .disposeOuter, .src (.next 5)]
+    (s.srcOpen, s.primary, s.count, s.groups.map (·.seen))) = (true, true, 1, [[.next 10, .next 30, .next 50]]) := by decide
+example : (let s := run (exCfg fun _ => none) init [.src (.next 1), .src (.next 3), .disposeOuter, .src (.next 5), .src .completed]
+    (s.srcOpen, s.srcDone, s.groups.map (·.seen))) = (false, true, [[.next 10, .next 30, .next 50, .completed]]) := by decide
+example : (let s := run { exCfg (fun _ => none) with imm := fun _ => false } init [.src (.next 1), .disposeOuter]
+    (s.srcOpen, s.srcDone, s.failed, s.outStopped, s.groups.map (·.holdsRef))) = (false, false, false, true, [false]) := by decide
+example : (let s := run (exCfg fun _ => none) init [.src (.next 1), .disposeOuter, .disposeGroup 0]
+    (s.srcOpen, s.srcDone, s.failed)) = (false, false, false) := by decide
+
 /-! ### durations derived from the group itself (`duration_mapper = lambda g: g.pipe(ops.skip(n))`): machine `stepD` -/
 
 /-- **stepD_eq_step / runD_eq_run.** The general machine (`stepD`, used by the driver) is the machine `step` of the
@@ -438,6 +500,44 @@ example : ((runD { exCfg (fun _ => none) with dgrp := fun _ => some 5 } init
     [.next (0, 1), .next (1, 0), .completed] := by decide
 example : ((runD { exCfg (fun _ => none) with dgrp := fun _ => some 1, imm := fun _ => false } init
     [.src (.next 1), .subGroup 0, .src (.next 3)]).groups.map (·.seen)) = [[.completed]] := by decide
+
+/-! ### re-entrancy: the outer subscriber feeds the source from inside `on_next(group)` (machine `stepN`) -/
+
+/-- **stepN_eq_stepD / runN_eq_runD.** Without feedback (`cfg.nest = fun _ => []`) the machine the driver runs is `stepD`. -/
+theorem stepN_eq_stepD (cfg : Cfg α κ β) (hn : ∀ g, cfg.nest g = []) (s : St κ β) (e : Ev α) :
+    stepN cfg s e = stepD cfg s e := WinGrp.stepN_eq_stepD hn s e
+theorem runN_eq_runD (cfg : Cfg α κ β) (hn : ∀ g, cfg.nest g = []) (s : St κ β) (evs : List (Ev α)) :
+    runN cfg s evs = runD cfg s evs := WinGrp.runN_eq_runD hn s evs
+
+/-- **nested_same_key_element_routed.** If, while handling the freshly emitted group `g` (created for element `x`, key `k`),
+the outer subscriber synchronously pushes an element `y` with the same key into the source, then — because
+`writers[key] = writer` is executed before `observer.on_next(group)` — `y` finds the registered writer: it is delivered to
+group `g` (tap, and the subscriber if it attached itself first), no second group is created, the duration is subscribed
+only afterwards, and the creating element follows: the group's log is exactly `[y', x']`.  (Any state with source and outer
+subscriber live and the RefCountDisposable not disposed; mappers not raising; duration neither group-derived nor firing
+inside its own subscribe.  Seeded change C19r2_1 registers the writer after `on_next(group)` and is refuted by this.) -/
+theorem nested_same_key_element_routed (cfg : Cfg α κ β) (hrefl : ∀ k, cfg.keyEq k k = true) (s : St κ β)
+    (x y : α) (k : κ) (v vy : β)
+    (hs : s.srcStopped = false) (ho : s.outStopped = false) (hd : s.rcdDisposed = false)
+    (hk : cfg.keyMapper x = .ok k) (hf : s.writers.find? (fun p => cfg.keyEq p.1 k) = none)
+    (hsm : cfg.subjMapper s.groups.length = .ok ()) (hdm : cfg.durMapper s.groups.length = .ok ())
+    (hv : cfg.elemMapper x = .ok v)
+    (hnest : cfg.nest s.groups.length = [y]) (hky : cfg.keyMapper y = .ok k) (hvy : cfg.elemMapper y = .ok vy)
+    (hplain : cfg.dgrp s.groups.length = none ∧ cfg.dsync s.groups.length = none) :
+    (stepN cfg s (.src (.next x))).out =
+      s.out ++ (.outer (.next (s.groups.length, k)) :: .tap s.groups.length (.next vy) ::
+        (if cfg.imm s.groups.length then [.grp s.groups.length (.next vy)] else []) ++
+        .subDur s.groups.length :: .tap s.groups.length (.next v) ::
+        (if cfg.imm s.groups.length then [.grp s.groups.length (.next v)] else [])) ∧
+    (stepN cfg s (.src (.next x))).groups.length = s.groups.length + 1 ∧
+    ((stepN cfg s (.src (.next x))).groups[s.groups.length]?).map (·.wlog) = some [.next vy, .next v] :=
+  WinGrp.nested_same_key_element_routed cfg hrefl s x y k v vy hs ho hd hk hf hsm hdm hv hnest hky hvy hplain
+
+/-- non-vacuity (the demo of C19r2_1): the handler of group #0 (key 1) feeds back 3 (same key), that of group #1 (key 0) feeds
+back 4: one group per key, follow-up first; everything ends with the source -/
+example : view (runN { exCfg (fun _ => none) with nest := fun g => if g = 0 then [3] else if g = 1 then [4] else [] } init
+    [.src (.next 1), .src (.next 2), .src (.next 5), .src .completed]) =
+    [(1, [.next 30, .next 10, .next 50, .completed], false), (0, [.next 40, .next 20, .completed], false)] := by decide
 
 /-! ### partition -/
 /-- **partition_exactly_one.** `partition(pred)`: with both outputs subscribed, the first output receives exactly the
